@@ -1,4 +1,7 @@
 import Pxv.Lemmas.Scope
+import Pxv.Lemmas.ScopeProcess
+import Pxv.Lemmas.ScopeStage
+import Pxv.Lemmas.Injection
 import Pxv.Thm.C01
 /-!
 C04 — injection is faithful: right constructor, right scope, no illicit copies.
@@ -238,6 +241,83 @@ theorem clone_built_in_order (g : Graph) (hwf : g.wellFormed = true) (reqs : Lis
   have : (⟨kd.2, kd.1, .shared⟩ : Edge) ∈ (applyReqs (fresh g) reqs).g.inEdges kd.1 := by simp [hin]
   exact built_before_use hrun hk this
 
+/-- **C04 (1) on the scope graph pavexc really builds**: for every blueprint — any nesting, any
+    interleaving of registrations — and every scope of it other than the application-state scope
+    (blueprints, request handlers, middlewares), `get` returns the registration held by the nearest
+    ancestor-or-self scope that has one. -/
+theorem get_nearest_process (b : Bp) (s ty : Nat) (hs : s < (process b).next) :
+    get (build (process b)) (process b).regs s ty =
+      firstHit (fun k => lookup (process b).regs k ty) (ancestors (build (process b)) s) := by
+  have hwf := process_wf b
+  have hd := build_decr _ hwf
+  apply get_nearest _ _ _ _ hd
+  · simp [build]; omega
+  · exact treeFrom_of_le_one _ hd (process b).next (build_parents_le_one _ hwf) _ _ hs
+
+
+/-- **C04 — no illicit copy between the middlewares of a stage**: when step 4 of the pipeline accepts a
+    stage, every index at which it makes the generated stage function pass `value.clone()` belongs to a
+    middleware that takes that type by value from a constructor whose cloning policy allows it; a
+    never-clone value that would have to be duplicated makes the stage be rejected instead. -/
+theorem stage_never_clone (mws : List (List StageInput)) (t : List (Nat × List Nat))
+    (h : stageCloning mws = .ok t) :
+    ∀ ty idxs, (ty, idxs) ∈ t → ∀ i ∈ idxs,
+      ∃ inp ∈ (mws[i]?).getD [], inp.ty = ty ∧ inp.byRef = false ∧ inp.cloneable = true := by
+  have hsound : Sound (fun i => (mws[i]?).getD []) (collectAll [] 0 mws) :=
+    collectAll_sound mws mws 0 [] (fun k mw hk => by simpa using hk) (by intro e he; cases he)
+  unfold stageCloning at h
+  generalize collectAll [] 0 mws = table at h hsound
+  -- every entry of the result comes from an entry of the table
+  have key : ∀ (l : List (Nat × CloningInfo)) (acc : Except Nat (List (Nat × List Nat))) (t : List (Nat × List Nat)),
+      l.foldl (fun acc e => match acc with
+        | .error x => .error x
+        | .ok t => match cloningFor e.2 with
+          | none => .ok t
+          | some (.error i) => .error i
+          | some (.ok idxs) => .ok (t ++ [(e.1, idxs)])) acc = .ok t →
+      ∀ x ∈ t, (∃ t0, acc = .ok t0 ∧ x ∈ t0) ∨ ∃ e ∈ l, cloningFor e.2 = some (.ok x.2) ∧ e.1 = x.1 := by
+    intro l
+    induction l with
+    | nil =>
+      intro acc t hf x hx
+      simp only [List.foldl_nil] at hf
+      exact Or.inl ⟨t, hf, hx⟩
+    | cons e rest ih =>
+      intro acc t hf x hx
+      simp only [List.foldl_cons] at hf
+      rcases ih _ t hf x hx with ⟨t0, ht0, hx0⟩ | ⟨e', he', h1, h2⟩
+      · cases acc with
+        | error a => simp at ht0
+        | ok ta =>
+          simp only at ht0
+          cases hc : cloningFor e.2 with
+          | none =>
+            rw [hc] at ht0
+            simp only [Except.ok.injEq] at ht0
+            subst ht0
+            exact Or.inl ⟨_, rfl, hx0⟩
+          | some r =>
+            rw [hc] at ht0
+            cases r with
+            | error a => simp at ht0
+            | ok idxs =>
+              simp only [Except.ok.injEq] at ht0
+              subst ht0
+              simp only [List.mem_append, List.mem_singleton] at hx0
+              rcases hx0 with hx0 | rfl
+              · exact Or.inl ⟨_, rfl, hx0⟩
+              · exact Or.inr ⟨e, by simp, hc, rfl⟩
+      · exact Or.inr ⟨e', List.mem_cons_of_mem _ he', h1, h2⟩
+  intro ty idxs hmem i hi
+  rcases key table (.ok []) t h (ty, idxs) hmem with ⟨t0, ht0, hx0⟩ | ⟨e, he, h1, h2⟩
+  · simp only [Except.ok.injEq] at ht0
+    subst ht0
+    cases hx0
+  · have := cloningFor_ok h1 i hi
+    obtain ⟨inp, hin, hty, hbr, hcl⟩ := hsound e he (i, true) this
+    exact ⟨inp, hin, by rw [hty]; exact h2, hbr, hcl⟩
+
+
 -- Non-vacuity: root(0) ⊃ blueprint 1 ⊃ route scope 3; sibling blueprint 2. T7 is registered twice in the
 -- root (ids 10 then 11), overridden in blueprint 1 (id 12) and registered in the sibling (id 13).
 example :
@@ -256,3 +336,63 @@ example :
     g.wellFormed = true ∧ isRun (applyReqs (fresh g) [(0, 1)]).g [0, 3, 1, 2] = true := by decide
 
 end Pxv.Scope
+
+namespace Pxv.Life
+open Pxv.Scope
+
+/-- **[finding]** the full statement is false of the faithful model: the handler and the post-processor of the
+    nested blueprint receive the value of the root's constructor, which their own scope does not designate. -/
+theorem injection_statement_false : ¬ injection_statement := by
+  intro h
+  have := h wEnv (fun _ => some 0) wChain wH (by decide)
+  revert this
+  decide
+
+
+/-- **C04, proved part — injection is faithful in uniform pipelines**: when the handler and the
+    middlewares of a route resolve every type the same way (no blueprint between them overrides a
+    constructor that an enclosing middleware sees), every input of every one of them that the
+    generated pipeline fills with a constructed value — directly in the component's closure or through
+    any number of `Next` states — was built by the constructor the component's scope designates. -/
+theorem injection_partial (env : Env) (tyOf : Nat → Option Nat) (chain : List Comp) (h : Comp)
+    (lk : Nat → Option CDef) (hu : UidInj lk) (hun : Uniform env lk chain h) :
+    faithful env (plan env tyOf chain h) = true := by
+  have hok := plan_ok env tyOf chain h lk hu hun
+  generalize plan env tyOf chain h = p at hok
+  unfold faithful
+  rw [List.all_eq_true]
+  intro x hx
+  obtain ⟨cp, ci⟩ := x
+  rw [List.mem_zipIdx_iff_getElem?] at hx
+  simp only at hx
+  have hcp := List.mem_of_getElem? hx
+  obtain ⟨hpok, hsc⟩ := hok cp hcp
+  unfold faithfulAt
+  rw [List.all_eq_true]
+  intro y hy
+  obtain ⟨⟨ty, m⟩, s⟩ := y
+  obtain ⟨j, hj⟩ := List.mem_iff_getElem?.mp hy
+  rw [List.getElem?_zip_eq_some] at hj
+  have hans := hpok.args j (ty, m) s hj.1 hj.2
+  simp only
+  cases s with
+  | built i =>
+    obtain ⟨n, hn1, hn2⟩ := hans
+    simp only [Plan.origin, Plan.ctorAt, hx, Option.bind_some, hn1, Option.map_some]
+    rw [hsc]
+    simpa using hn2
+  | param t =>
+    simp only [Ans] at hans
+    subst hans
+    simp only [Plan.origin, hx]
+    cases ho : p.originOfParam cp.stage t with
+    | app t' => simp [Plan.ctorAt]
+    | stuck => simp [Plan.ctorAt]
+    | node w i =>
+      obtain ⟨wp, n, h1, h2, h3⟩ := originOfParam_ok p lk (fun cp hcp => (hok cp hcp).1) _ _ _ _ ho
+      simp only [Plan.ctorAt, h1, Option.bind_some, h2, Option.map_some]
+      rw [hsc]
+      simpa using h3
+
+
+end Pxv.Life
